@@ -211,6 +211,8 @@ def main():
     tier = a.tier
     if a.fuzz_only:
         tier, a.sub = "thorough", "__none__"
+    global _partial_run
+    _partial_run = bool(a.sub)
     try:
         seed = int(os.environ.get("VERIF_SEED", "1"))
     except ValueError:
@@ -476,7 +478,12 @@ def merge_stats(rundirs):
     )
 
 
+_partial_run = False  # --sub / --fuzz-only: a development run of a part of the check; its numbers are not evidence
+
+
 def write_evidence(pid, cfg, tier, seed, m, wall, violations, fuzz_info, note=None):
+    if _partial_run:
+        return
     rule = cfg["rule"]
     if m["capped"]:
         rule += " | distinct_nontrivial is a LOWER BOUND: each shard stops remembering case hashes after 120000 entries; hash sets of all shards are unioned."
